@@ -61,7 +61,8 @@ var rewriteVals = []string{
 	"NOERROR;HTTPS;1 . alpn=h3", "NOERROR;SRV;1 2 80 srv.example.org", "NOERROR;PTR;ptr.example.org.",
 }
 var webPaths = []string{"", "/", "/ads.js", "/banner/728x90/img.png", "/path/AdS.js?x=1", "/adsadsads/ads.gif", "/img/banner.png?track=1", "/trackertracker/t.js"}
-var pathPatterns = []string{"/ads.js", "/banner/*/img", "/adsads", "ads.gif|", "/img/banner", "track=", "/AdS.js", "/tracker"}
+var pathPatterns = []string{"/ads.js", "/banner/*/img", "/adsads", "ads.gif|", "/img/banner", "track=", "/AdS.js", "/tracker",
+	"|https://*/ads", ":8080/", "^ads.js^", ".png?track", "/img/*.png?track=1|", "|ws"}
 var typeOpts = []string{"script", "image", "~script", "subdocument", "xmlhttprequest", "script,image", "~image,~other", "document", "stylesheet",
 	"object", "media", "font,stylesheet", "websocket", "ping", "other", "popup", "media,mp4", "script,empty", "first-party", "~websocket,~ping"}
 var selectors = []string{".banner", "#ad", "div.ads", ".track > a", "[data-ad]"}
@@ -350,7 +351,7 @@ func GenRule(ch *core.Chooser, k int, hosts []string, prev []string) string {
 	case KBareDomain:
 		return h
 	case KWebPath:
-		pre := []string{"", "||" + h, "@@||" + h, "@@"}[ch.Intn("rule.webpre", 4)]
+		pre := []string{"", "||" + h, "@@||" + h, "@@", "||" + h, "|https://" + h, "://" + h, "||" + h + ":8080"}[ch.Intn("rule.webpre", 8)]
 		return pre + pick(ch, "rule.path", pathPatterns)
 	case KWebTyped:
 		pre := []string{"||", "@@||"}[ch.Intn("rule.allow", 2)]
